@@ -409,6 +409,8 @@ class ExprMixin:
                 else:
                     out.append((STuple([]), s))
             return out
+        if isinstance(obj, SVal):      # a slice of an opaque sequence is an opaque sequence
+            return [(SVal(self.fresh(st, 'opaque_slice', Val)), st)]
         raise Unsupported('slice expression at line %d' % node.lineno)
 
     def concrete_int(self, v):
